@@ -139,6 +139,15 @@ def recompute_lemma(su, U, solver="kissat", timeout_s=600):
                 if y2 != row[2]:
                     pre.append(-c.and2(R(app, row), R(app, (row[0], row[1], y2))))
     own0 = {rel.name: {row: tab(rel, row, "_own") for row in M.rows_of(rel, U)} for rel in members}
+
+    def old_lit(rel, row, suffix=None):
+        for ix in rel.indices:
+            if ix.age == "old" and ix.eqs is None and len(ix.order) == rel.arity and ix.suffix == suffix:
+                return st.table(ix.field).cell(ix.project(row))
+        return F
+    old0 = {"own": {rel.name: {row: old_lit(rel, row, "_own") for row in M.rows_of(rel, U)} for rel in members},
+            "dom": {row: old_lit(dom, row) for row in M.rows_of(dom, U)}, "cod": {row: old_lit(cod, row) for row in M.rows_of(cod, U)},
+            "apps": {t: {row: old_lit(app, row) for row in M.rows_of(app, U)} for t, app in apps.items()}}
     dom0 = {row: R(dom, row) for row in M.rows_of(dom, U)}
     cod0 = {row: R(cod, row) for row in M.rows_of(cod, U)}
     app0 = {t: {row: R(app, row) for row in M.rows_of(app, U)} for t, app in apps.items()}
@@ -200,6 +209,9 @@ def recompute_lemma(su, U, solver="kissat", timeout_s=600):
                         "dom_rel": dom.name, "cod_rel": cod.name, "obj_type": obj_t, "mor_type": mor_t,
                         "apps": {app.name: [list(row) for row, l in app0[t].items() if tv(l)] for t, app in apps.items()},
                         "own": {rel.name: [list(row) for row, l in own0[rel.name].items() if tv(l)] for rel in members},
+                        "old": {"dom": [list(row) for row, l in old0["dom"].items() if tv(l)], "cod": [list(row) for row, l in old0["cod"].items() if tv(l)],
+                                "apps": {apps[t].name: [list(row) for row, l in old0["apps"][t].items() if tv(l)] for t in apps},
+                                "own": {rn: [list(row) for row, l in d_.items() if tv(l)] for rn, d_ in old0["own"].items()}},
                         "member_types": sorted(apps)}
     rv, _ = terms.solve(c, ctx.assumes + pre + [-bound, c.orl([c.and2(dom0[(mm, a)], cod0[(mm, b)]) for mm in range(U) for a in range(U) for b in range(U) if a != b])], solver=solver, timeout_s=timeout_s)
     out["vacuity (a morphism between two objects exists)"] = rv
@@ -207,25 +219,48 @@ def recompute_lemma(su, U, solver="kissat", timeout_s=600):
 
 
 def replay_recompute(su, sch, harness, name, state):
-    """native replay of a recompute-lemma counterexample: the state is rebuilt through the public API (every tuple new), close_until
-    stops at its first condition evaluation (right after recompute_model_indices) and the dumped all-copies are compared with the
-    inheritance closure of the asserted member tuples.  Returns (confirmed, observations); programs with member types are not replayed."""
-    if state["member_types"]:
-        return False, ["programs with member types are not replayed"]
+    """native replay of a recompute-lemma counterexample: the state is rebuilt through the public API (every tuple new; elements of
+    member types are created under object 0), close_until stops at its first condition evaluation (right after
+    recompute_model_indices) and the dumped all-copies are compared with the inheritance closure of the asserted member tuples.
+    Returns (confirmed, observations)."""
     U = state["U"]
     script = []
     for t in sch.types:
         item = su.prog.methods.get((sch.model, "new_" + t))
-        if item is None or len(item["sig"]["inputs"]) != 1:
-            return False, ["type %s has no argument-less constructor" % t]
-        script += ["new_" + t] * U
-    for row in state["dom"]:
-        script.append("insert_%s %d %d" % (state["dom_rel"], row[0], row[1]))
-    for row in state["cod"]:
-        script.append("insert_%s %d %d" % (state["cod_rel"], row[0], row[1]))
-    for rel, rows in state["own"].items():
-        for row in rows:
-            script.append("insert_%s %s" % (rel, " ".join(map(str, row))))
+        if item is None:
+            return False, ["type %s has no constructor" % t]
+        nargs = len(item["sig"]["inputs"]) - 1
+        if nargs == 0:
+            script += ["new_" + t] * U
+        elif nargs == 1 and t in state["member_types"]:
+            continue
+        else:
+            return False, ["constructor of %s takes %d arguments" % (t, nargs)]
+    for t in state["member_types"]:
+        script += ["new_%s 0" % t] * U
+    old = state.get("old", {"dom": [], "cod": [], "apps": {}, "own": {}})
+
+    def phase(want_old):
+        lines = []
+        for row in state["dom"]:
+            if (row in old["dom"]) == want_old:
+                lines.append("insert_%s %d %d" % (state["dom_rel"], row[0], row[1]))
+        for row in state["cod"]:
+            if (row in old["cod"]) == want_old:
+                lines.append("insert_%s %d %d" % (state["cod_rel"], row[0], row[1]))
+        for arel, rows in state["apps"].items():
+            for row in rows:
+                if (row in old["apps"].get(arel, [])) == want_old:
+                    lines.append("insert_%s %d %d %d" % (arel, row[0], row[1], row[2]))
+        for rel, rows in state["own"].items():
+            for row in rows:
+                if (row in old["own"].get(rel, [])) == want_old:
+                    lines.append("insert_%s %s" % (rel, " ".join(map(str, row))))
+        return lines
+    p_old = phase(True)
+    if p_old:
+        script += p_old + ["close_until 3"]        # the tuples asserted so far become old (rules may run: the expectation is read off the dump)
+    script += phase(False)
     script.append("close_until 0")
     try:
         rc, out, err = harness.run(name, script, timeout=60)
@@ -236,26 +271,53 @@ def replay_recompute(su, sch, harness, name, state):
     dumps = [e for e in N.parse_output(out) if e[0] == "dump"]
     if not dumps:
         return False, ["no dump"]
-    nat = N.canonical_native(sch, dumps[0][2])
-    problems = []
-    dommap = {m_: a for m_, a in state["dom"]}
-    codmap = {m_: b for m_, b in state["cod"]}
-    for rel, rows in state["own"].items():
-        clo = set(tuple(r_) for r_ in rows)
-        for _ in range(U + 1):
-            for m_, a in dommap.items():
-                if m_ in codmap:
-                    clo |= set((codmap[m_],) + r_[1:] for r_ in clo if r_[0] == a)
-        R = sch.rels[rel]
+    nat = N.canonical_native(sch, dumps[-1][2])
+
+    def rows_of_rel(R, suffix):
         got = set()
         for ix in R.indices:
-            if ix.suffix == "_all" and ix.eqs is None and len(ix.order) == R.arity:
+            if ix.suffix == suffix and ix.eqs is None and len(ix.order) == R.arity:
                 inv = {o: i for i, o in enumerate(ix.order)}
                 for tup in nat[("field", ix.field)]:
                     got.add(tuple(tup[inv[col]] for col in range(R.arity)))
+        return got
+    problems = []
+    dommap = {m_: a for m_, a in rows_of_rel(sch.rels[state["dom_rel"]], None)}
+    codmap = {m_: b for m_, b in rows_of_rel(sch.rels[state["cod_rel"]], None)}
+    appmap = {}
+    for arel in state["apps"]:
+        t = sch.rels[arel].types[1]
+        for m_, x, y in sorted(rows_of_rel(sch.rels[arel], None)):
+            appmap.setdefault((t, m_, x), y)
+    for rel in state["own"]:
+        R = sch.rels[rel]
+        clo = rows_of_rel(R, "_own")
+        for _ in range(U + 2):
+            add = set()
+            for m_, a in dommap.items():
+                if m_ not in codmap:
+                    continue
+                for r_ in clo:
+                    if r_[0] != a:
+                        continue
+                    img = [codmap[m_]]
+                    for col in range(1, R.arity):
+                        t = R.types[col]
+                        if t in state["member_types"]:
+                            y = appmap.get((t, m_, r_[col]))
+                            if y is None:
+                                img = None
+                                break
+                            img.append(y)
+                        else:
+                            img.append(r_[col])
+                    if img is not None:
+                        add.add(tuple(img))
+            clo |= add
+        got = rows_of_rel(R, "_all")
         if got != clo:
-            problems.append("%s after recompute_model_indices: all copies hold %s, the inheritance closure of the asserted tuples is %s" % (rel, sorted(got), sorted(clo)))
-    return bool(problems), problems + ([] if problems else ["script: " + "; ".join(script)])
+            problems.append("%s right after recompute_model_indices: the all copies hold %s, the inheritance closure of the own copies (along the dumped dom / cod / application tables) is %s" % (rel, sorted(got), sorted(clo)))
+    return bool(problems), problems + ["script: " + "; ".join(script)]
 
 
 def run_program(task):
